@@ -384,6 +384,47 @@ def run_length(ctx, rule='C05.run-length'):
     return res
 
 
+def free_once(ctx, rule='C05.free-once'):
+    """a node gives its old page run back at most once: the free is guarded by "the node has a page" and followed by clearing the page id"""
+    res = []
+    F = ctx.facts
+    try:
+        (txfree,) = ctx.need('tx-free-role')
+    except AnchorError as e:
+        return [unresolved(rule, str(e))]
+    n = 0
+    for fn in F.fns:
+        if not (fn.self_adt and last_seg(fn.self_adt) == 'Node'):
+            continue
+        du = None
+        for bb, t, c in calls_to_fn(F, fn, txfree):
+            du = du or ctx.du(fn)
+            _, atoms = du.slice_operand(t['args'][1]) if len(t['args']) > 1 else (None, set())
+            if not has_field(atoms, 'Node', 'page_id'):
+                continue
+            n += 1
+            guarded = False
+            for (a, sx) in fn.control_deps_transitive(bb):
+                at = fn.term(a)
+                if at['k'] == 'switch':
+                    _, da = du.slice_operand(at['discr'])
+                    if has_field(da, 'Node', 'page_id') and any(x[0] == 'bin' and x[1] in ('Ne', 'Eq', 'Gt') for x in da):
+                        guarded = True
+            resets = [b2 for b2, si, s in stores_to_field(fn, 'Node', 'page_id') if s['rv']['k'] == 'use' and op_const_val(s['rv']['op']) == 0]
+            leak = [x for x in fn.reach_from(fn.succ(bb), avoid=set(resets)) if fn.term(x)['k'] == 'return']
+            if guarded and resets and not leak:
+                res.append(ok(rule, 'free of the node\'s page run at %s is guarded by "has a page" and followed by clearing the page id' % fn.loc(bb), sites=1))
+            else:
+                res.append(bad(rule, '%s | node page run can be freed twice' % fn.qual,
+                               '%s frees the node\'s page run at %s %s: a node is written (and therefore freed) more than once per commit when it splits, so the same run would be '
+                               'filed as free twice' % (fn.qual, fn.loc(bb), 'without testing that it has a page' if not guarded else 'without clearing the page id afterwards on every path'),
+                               where=fn.loc(bb)))
+    f = floor(rule, 'frees of a node\'s own page run', n, 1)
+    if f:
+        res.append(f)
+    return res
+
+
 def run(ctx, tier):
     results = []
     results += freelist_order(ctx)
@@ -393,6 +434,7 @@ def run(ctx, tier):
     results += reader_writer_tables(ctx)
     results += page_kinds(ctx)
     results += run_length(ctx)
+    results += free_once(ctx)
     results += c02.cow_free_set(ctx, rule='C05.cow.free-set')
     import c10, c06
     results += c10.delete_walk_guard(ctx, rule='C05.delete-walk-guard')
